@@ -89,6 +89,14 @@ func progLines(p []Op) []string {
 
 func progText(p []Op) string { return strings.Join(progLines(p), "; ") }
 
+// key: the empty key is passed as a nil slice (what an empty protobuf bytes field decodes to)
+func (o Op) key() []byte {
+	if o.Key == "" {
+		return nil
+	}
+	return []byte(o.Key)
+}
+
 func (o Op) lo() []byte {
 	if o.LoNil {
 		return nil
@@ -114,12 +122,13 @@ type features struct {
 	twoIters, writeWhileOpen, earlyStop     bool
 	nilLo, nilHi, emptyBound, inverted      bool
 	transientWrite, transientRead, midRWSet bool
+	emptyKey                                bool
 	// preconditions of the scan corner cases: a scanned range contained such a key
 	scanOverExecDel, scanOverLookedAbsent, scanOverBkDel, scanOverOverwritten bool
 }
 
 // ---------------------------------------------------------------------------------------
-// exhaustive space: <= 4 ops over 3 keys of one bucket
+// exhaustive space: <= 4 ops (thorough: <= 5) over 3 keys of one bucket
 // ---------------------------------------------------------------------------------------
 
 const exBucket = "b"
@@ -134,7 +143,7 @@ func exAlphabet(withIterator bool) []Op {
 		a = append(a, Op{Kind: opGet, B: exBucket, Key: k})
 	}
 	for _, k := range exKeys {
-		a = append(a, Op{Kind: opPut, B: exBucket, Key: k})
+		a = append(a, Op{Kind: opPut, B: exBucket, Key: k, Val: "w<position>"})
 	}
 	for _, k := range exKeys {
 		a = append(a, Op{Kind: opDel, B: exBucket, Key: k})
@@ -145,6 +154,9 @@ func exAlphabet(withIterator bool) []Op {
 		Op{Kind: opScan, B: exBucket, LoNil: true, HiNil: true, N: 1},  // early stop after one item
 		Op{Kind: opScan, B: exBucket, Lo: "k2", HiNil: true, N: -1},    // [k2, end)
 	)
+	if withIterator { // thorough tier: an iterator that stays open across other ops
+		a = append(a, Op{Kind: opOpen, B: exBucket, Slot: 0, LoNil: true, HiNil: true}, Op{Kind: opNext, Slot: 0, N: 1})
+	}
 	return a
 }
 
@@ -181,7 +193,7 @@ type universe struct {
 
 // all candidate keys; chosen so that range bounds fall on, just before and just after keys
 // and that byte 0x00 / 0xff / the bucket separator occur
-var keyPool = []string{"a", "a\x00", "ab", "b", "b/", "b0", "b\xff", "c", "ca", "d", "\xff", "k/1"}
+var keyPool = []string{"a", "a\x00", "ab", "b", "b/", "b0", "b\xff", "c", "ca", "d", "\xff", "k/1", ""}
 
 var bucketPool = []string{"b", "b0", "c"} // "b/" + x < "b0" <= "b0/" + y: adjacent in the raw key space
 
@@ -223,6 +235,9 @@ func genBound(rng *rand.Rand, keys []string, upper bool, allowNil bool) (string,
 		return pick(rng, keys) + "\x00", false // just after a key
 	case x < 85:
 		k := pick(rng, keys)
+		if k == "" {
+			return "", false
+		}
 		return k[:len(k)-1], false // a prefix (just before)
 	case x < 92:
 		return pick(rng, keyPool), false
